@@ -40,6 +40,9 @@ structure Route where
   stale : Bool
   nLL   : Nat
   noLL  : Bool
+  /-- rejected at reception (AS_PATH loop, own ORIGINATOR_ID): held in the Adj-RIB-In, never in the Loc-RIB,
+  not counted as accepted -/
+  rej   : Bool := false
 deriving Repr, DecidableEq, Inhabited
 
 /-- what the received OPEN carries (GR capability: N bit, R bit, restart time, family tuples;
@@ -64,6 +67,9 @@ structure Peer where
   cfgNotif : Bool
   cfgLL    : Bool
   deferral : Nat
+  /-- the neighbour is configured as one the local speaker is restarting toward
+  (GracefulRestart.State.LocalRestarting as given to AddPeer) -/
+  cfgLR    : Bool := false
   /- State.SessionState == established -/
   est      : Bool := false
   /- GracefulRestart.State -/
@@ -189,8 +195,8 @@ def markLLGR (fs : List Nat) (rib : List Route) : List Route :=
     (fun r => if fs.contains r.fam then { r with nLL := r.nLL + 1 } else r)
 
 /-- `AdjRib.Update` with an announcement: replace the entry of the same (family, prefix) -/
-def announce (rib : List Route) (fam key ver : Nat) (noLL : Bool) (nLL : Nat) : List Route :=
-  rib.filter (fun r => !(r.fam == fam && r.key == key)) ++ [⟨fam, key, ver, false, nLL, noLL⟩]
+def announce (rib : List Route) (fam key ver : Nat) (noLL : Bool) (nLL : Nat) (rej : Bool := false) : List Route :=
+  rib.filter (fun r => !(r.fam == fam && r.key == key)) ++ [⟨fam, key, ver, false, nLL, noLL, rej⟩]
 
 def withdraw (rib : List Route) (fam key : Nat) : List Route :=
   rib.filter (fun r => !(r.fam == fam && r.key == key))
@@ -310,8 +316,13 @@ def onStateChange (p : Peer) (next : Next) (graceful : Bool) (purgeReason : Bool
 
 /-- `AdjRib.Update`: the Adj-RIB-In has a table per CONFIGURED family only (`NewAdjRib(rfList)`); a path
 of any other family is skipped (`t := adj.table[rf]; if t == nil { continue }`) -/
-def onAnnounce (p : Peer) (fam key ver : Nat) (noLL : Bool) (nLL : Nat) : Peer :=
-  if !p.est || !(famIds p).contains fam then p else { p with rib := announce p.rib fam key ver noLL nLL }
+def onAnnounce (p : Peer) (fam key ver : Nat) (noLL : Bool) (nLL : Nat) (rej : Bool := false) : Peer :=
+  if !p.est || !(famIds p).contains fam then p else { p with rib := announce p.rib fam key ver noLL nLL rej }
+
+/-- what is REPORTED per family (GetTable(ADJ_IN) NumPath / NumAccepted, ListPeer AfiSafi.State): the
+number of Adj-RIB-In routes of the family, and of those not rejected at reception -/
+def received (p : Peer) (f : Nat) : Nat := (p.rib.filter (fun r => r.fam == f)).length
+def accepted (p : Peer) (f : Nat) : Nat := (p.rib.filter (fun r => r.fam == f && !r.rej)).length
 
 def onWithdraw (p : Peer) (fam key : Nat) : Peer :=
   if !p.est then p else { p with rib := withdraw p.rib fam key }
@@ -432,10 +443,11 @@ inductive Ev where
   | est (c : Caps)                 -- OPEN exchanged: stateChange(ESTABLISHED) + handleFSMMessage
   | loss (k : Loss)                -- the established session ends in way `k`
   | goto (n : Next) (adminDown : Bool) -- a non-established FSM transition (reason fsmAdminDown or a failure)
-  | ann (fam key ver : Nat) (noLL : Bool) (nLL : Nat)
+  | ann (fam key ver : Nat) (noLL : Bool) (nLL : Nat) (rej : Bool)
   | wd (fam key : Nat)
   | eor (f : Nat)
   | tick (d : Nat)
+  | del                            -- DeletePeer (or UpdatePeer needing a new OPEN, StopBgp) then AddPeer with the same configuration
 deriving Repr, DecidableEq, Inhabited
 
 /-- session loss: classification in `established()` (graceful ⇒ restart timer armed with
@@ -455,15 +467,27 @@ def onEst (p : Peer) (c : Caps) : Peer :=
   let p2 := onStateChange p1 .established false
   { p2 with restartAt := none }
 
+/-- a family record of a newly created neighbour -/
+def freshFam (f : Fam) : Fam := { id := f.id, mpCfg := f.mpCfg, mpEnabled := f.mpCfg }
+
+/-- the peer object goes away — `deleteNeighbor`: `dropAdjRIBIn(all configured families)` whatever the
+session state, `stopNeighbor` (`stopPeerRestarting`, FSM and its restart timer stopped) — and a new one
+is created with the same configuration: no route, no restart state, no timer of the old one (the
+deferral callbacks of the SERVER stay: they look the neighbour up by address) -/
+def onDelete (p : Peer) : Peer :=
+  { cfgGR := p.cfgGR, cfgNotif := p.cfgNotif, cfgLL := p.cfgLL, cfgLR := p.cfgLR, deferral := p.deferral,
+    localRestarting := p.cfgLR, fams := p.fams.map freshFam, now := p.now, defTimers := p.defTimers }
+
 /-- the effect of one event, before the timers that it makes due at once are fired -/
 def stepRaw (p : Peer) : Ev → Peer
   | .est c => onEst p c
   | .loss k => onLoss p k
   | .goto n ad => if p.est || n == .established then p else onStateChange p n false ad
-  | .ann f k v noLL nLL => onAnnounce p f k v noLL nLL
+  | .ann f k v noLL nLL rj => onAnnounce p f k v noLL nLL rj
   | .wd f k => onWithdraw p f k
   | .eor f => onEOR p f
   | .tick d => tick p d
+  | .del => onDelete p
 
 /-- one event of a history.  Timer values are inputs and may be 0 ("expire at once"): whatever an event
 arms with a deadline equal to the present instant fires before the next event (`tick · 0`). -/
